@@ -392,6 +392,18 @@ def run_c03_c09(r: Run, prop):
     for comp, req, z in ([("Mg", 100)], "n:100", 2), ([("Mg", 150)], "n:120", -1), ([("Mg", 100), ("Si", 10)], "n:110", 1), \
             ([("Mg", 100)], "n:100", 0):
         cases.append((comp, req, z, PROTON, "vec"))
+    # explicit zero-count entries ("non-negative counts"): what is left after subtracting an adduct.  The entry contributes
+    # nothing, yet the code multiplies its principal abundance into the monoisotopic intensity, so every unnormalised share
+    # shrinks (Mg 0.79, Si 0.92, Ne 0.90): tail variants must still get their masses
+    for base_c in ([("C", 2), ("H", 4), ("O", 1)], [("C", 3), ("H", 4), ("O", 2), ("K", 1)], [("C", 1), ("H", 2), ("O", 3), ("N", 1)],
+                   [("H", 9), ("N", 1), ("K", 1)], [("C", 6), ("H", 12), ("O", 6)]):
+        for zsym in ("Mg", "Si", "Ne", "K", "S"):
+            if any(sy == zsym for sy, _ in base_c):
+                continue
+            pos = rng.randint(0, len(base_c))
+            comp = base_c[:pos] + [(zsym, 0)] + base_c[pos:]
+            for req in ("n:20", "n:40", "guess"):
+                cases.append((comp, req, rng.choice([0, 1, -1, 2]), PROTON, rng.choice(["vec", "map"])))
     # peak requests and atom counts named by new literals of the changed code
     from . import common as _c
     for d in _c.dict_ints(1, 400):
